@@ -161,6 +161,7 @@ type WorldSpec struct {
 	Epoch   int64      `json:"epoch,omitempty"`
 	Budgets *Budgets   `json:"budgets,omitempty"`
 	Devices []string   `json:"devices,omitempty"` // path prefixes that are separate file systems
+	StdoutClosed bool  `json:"stdout_closed,omitempty"` // process mode: standard output is a pipe whose reader has gone away (tsh ... | head -0)
 }
 
 // TraceEv is one entry of the execution trace.
